@@ -213,7 +213,39 @@ func worker(args []string) {
 				continue // one minimised report per signature per worker
 			}
 			rec := &violRec{Run: i, RunSeed: rs, Class: v.Class, Signature: v.Signature, Detail: v.Detail, Choices: t.Trace, OrigLen: len(t.Trace), Events: t.Events}
-			if !eng.Race && !strings.Contains(v.Class, "noshrink") {
+			if eng.Race && v.Class == "data-race" {
+				// every candidate runs in its own process (ThreadSanitizer reports a given race once per process)
+				budget := 40
+				if *tier == "thorough" {
+					budget = 200
+				}
+				deadline := time.Now().Add(60 * time.Second)
+				var lastEvents []string
+				var lastDetail string
+				ex := func(ch []int) (string, []int) {
+					if time.Now().After(deadline) {
+						return "", nil
+					}
+					sig, used, events, detail := subExec(eng, *prop, *tier, ch)
+					if sig == v.Signature {
+						lastEvents, lastDetail = events, detail
+					}
+					return sig, used
+				}
+				// confirm the original first
+				if sig, used := ex(t.Trace); sig == v.Signature {
+					min, st := sim.Shrink(used, v.Signature, ex, budget)
+					if sig2, used2 := ex(min); sig2 == v.Signature {
+						rec.Choices = used2
+						rec.Events = lastEvents
+						rec.Detail = lastDetail
+						rec.Minimised = true
+						rec.Shrink = fmt.Sprintf("%d sub-process candidates, %d accepted", st.Candidates, st.Accepted)
+					}
+				} else {
+					rec.Shrink = "not reproduced in a fresh process (signature " + sig + ")"
+				}
+			} else if !strings.Contains(v.Class, "noshrink") {
 				budget := 300
 				if *tier == "thorough" {
 					budget = 1500
@@ -258,6 +290,7 @@ func worker(args []string) {
 	done.WallS = time.Since(start).Seconds()
 	done.Stopped = stopped
 	emit(msg{T: "done", Done: done})
+	sim.RaceLogCleanup()
 }
 
 func clipEvents(ev []string, n int) []string {
@@ -555,7 +588,7 @@ func workerEnv(eng *props.Engine, w int) []string {
 	env := []string{"GOMAXPROCS=2"}
 	if eng.Race {
 		logp := filepath.Join(os.TempDir(), fmt.Sprintf("verif-race-%d-%d", os.Getpid(), w))
-		env = append(env, "GORACE=halt_on_error=0 log_path="+logp+" history_size=3", "VERIF_RACE_LOG="+logp)
+		env = append(env, "GORACE=halt_on_error=0 exitcode=0 log_path="+logp+" history_size=3", "VERIF_RACE_LOG="+logp)
 	}
 	return env
 }
@@ -722,6 +755,29 @@ func replay(args []string) int {
 	return 1
 }
 
+// subExec runs one trace in a fresh process of this binary.
+func subExec(eng *props.Engine, prop, tier string, choices []int) (sig string, used []int, events []string, detail string) {
+	self, _ := os.Executable()
+	cmd := exec.Command(self, "exec", prop, tier)
+	in, _ := json.Marshal(choices)
+	cmd.Stdin = strings.NewReader(string(in))
+	cmd.Env = append(os.Environ(), workerEnv(eng, 1000+os.Getpid()%1000)...)
+	out, err := cmd.Output()
+	if err != nil {
+		return "", nil, nil, ""
+	}
+	var res struct {
+		Sig    string   `json:"sig"`
+		Used   []int    `json:"used"`
+		Events []string `json:"events"`
+		Detail string   `json:"detail"`
+	}
+	if json.Unmarshal(out, &res) != nil {
+		return "", nil, nil, ""
+	}
+	return res.Sig, res.Used, res.Events, res.Detail
+}
+
 // execOne: internal helper used for sub-process shrinking (race engine).
 func execOne(args []string) {
 	prop, tier := args[0], args[1]
@@ -741,6 +797,7 @@ func execOne(args []string) {
 	b, _ := json.Marshal(res)
 	saved.Write(b)
 	props.CleanupScratch()
+	sim.RaceLogCleanup()
 }
 
 // ---------------------------------------------------------------------------------------
